@@ -98,7 +98,7 @@ CleanCases == { [t |-> Prelude \o <<SPrint(InputE), SPrint(InputE)>> \o After, c
 Base == SetToSeq(ExprCases \cup StmtCases \cup CleanCases)
 PadSeq == SetToSeq(Pads)
 Cases == [i \in 1..(Len(Base) * Len(PadSeq)) |-> [b |-> Base[1 + ((i - 1) % Len(Base))], pad |-> PadSeq[1 + ((i - 1) \div Len(Base))]]]
-Programs == [i \in 1..Len(Cases) |-> LayoutProg(Cases[i].b.t, 1 + Cases[i].pad)]
+Programs == TLCEval([i \in 1..Len(Cases) |-> LayoutProg(Cases[i].b.t, 1 + Cases[i].pad)])
 FamProgOf(i) == Programs[i]
 Lines == << StrCps("  first line  "), StrCps("second"), StrCps("third"), StrCps("fourth"), StrCps("fifth"), StrCps("sixth") >>
 Init == \E i \in 1..Len(Programs) : InitSem(i, Lines, FALSE)
